@@ -44,7 +44,7 @@ CFG = {
         install=True,
     ),
     "leeds": dict(
-        elements=["e", "H", "He", "C", "N", "O", "F", "Na", "Mg", "Al", "Si", "P", "S", "Cl", "Ar", "Ca", "Fe"],
+        elements=["e", "H", "He", "C", "N", "O", "F", "Na", "Mg", "Al", "Si", "P", "S", "Cl", "Ar", "Ca", "Fe", "Ge"],  # Ge: a symbol that contains the prefix letter
         pseudo=["CRP", "XRAY", "PHOTON", "CRPHOT"],
         replacement={},
         kwargs={"surface_prefix": "G"},
@@ -127,6 +127,8 @@ def _case(draw):
         # where "group digits" and "symbol digits" would have two readings
         if case["surface"] and not toks[0][0][0].isdigit():
             case["sgroup"] = draw(st.sampled_from([0, 0, 0, 1, 2, 12]))
+            # group 0 may be written out, as it is for grains (GRAIN0): #0CO is #CO
+            case["sgroup0_written"] = case["sgroup"] == 0 and draw(st.integers(0, 3)) == 0
         if c["labels"] and draw(st.integers(0, 5)) == 0:
             case["label"] = draw(st.sampled_from(c["labels"]))
     if draw(st.integers(0, 5)) == 0:
@@ -157,7 +159,7 @@ def prefix_of(case, c):
     """Surface prefix as written: the prefix symbol followed by the grain-size group number (omitted for group 0)."""
     if not case.get("surface"):
         return ""
-    return c["kwargs"].get("surface_prefix", "#") + (str(case["sgroup"]) if case.get("sgroup") else "")
+    return c["kwargs"].get("surface_prefix", "#") + (str(case["sgroup"]) if case.get("sgroup") else "0" if case.get("sgroup0_written") else "")
 
 
 def spell(case, c):
